@@ -343,3 +343,98 @@ func verifRandMerge7386(a, b JsonNode, options []Option) bool {
 
 // verifRandPure (C15): see verifPure.
 func verifRandPure(a, b JsonNode, options []Option) bool { return verifPure(a, b, options) }
+
+// verifPatchedDiff (C06, C05, C15): a document obtained by patching behaves like the same document
+// freshly read: in list mode the patched a (which Equals b) diffs against any c exactly as b does,
+// hunk for hunk (recursing into the same containers, same context), and compares equal to the same
+// documents.
+func verifPatchedDiff(a, b, c JsonNode) bool {
+	r, err := verifCloneNode(a).Patch(verifCloneDiff(a.Diff(b)))
+	if err != nil {
+		return true // C01's concern
+	}
+	if r.Equals(c) != b.Equals(c) || c.Equals(r) != c.Equals(b) {
+		return false
+	}
+	return r.Diff(c).Render() == b.Diff(c).Render() && c.Diff(r).Render() == c.Diff(b).Render()
+}
+
+// ---------------------------------------------------------------------
+// Scale: a handful of large documents (a 70 kB string on one line, a 3000-element array with
+// repeats, 60 levels of nesting, an object with 500 keys), each with a slightly edited partner.
+
+func verifScalePairs() ([]JsonNode, []JsonNode) {
+	long := make([]byte, 70000)
+	for i := range long {
+		long[i] = byte('a' + i%26)
+	}
+	var as, bs []JsonNode
+	// (never two long strings in one hunk: jd compares the two strings of a single-string hunk
+	// rune by rune, which is quadratic)
+	as = append(as, jsonObject{"k": jsonString("old"), "l": jsonArray{jsonNumber(1), jsonNumber(2), jsonNumber(3)}, "m": jsonNumber(1)})
+	bs = append(bs, jsonObject{"k": jsonString(long), "l": jsonArray{jsonNumber(1), jsonNumber(3)}, "m": jsonNumber(2)})
+	as = append(as, jsonArray{jsonString(long), jsonNumber(1)})
+	bs = append(bs, jsonArray{jsonNumber(2), jsonNumber(1)})
+	big := make(jsonArray, 3000)
+	for i := range big {
+		big[i] = jsonNumber(i % 7)
+	}
+	big2 := append(jsonArray{}, big[:20]...)
+	big2 = append(big2, jsonString("new"))
+	big2 = append(big2, big[20:1500]...)
+	big2 = append(big2, big[1501:]...)
+	as = append(as, big)
+	bs = append(bs, big2)
+	var deepA, deepB JsonNode = jsonNumber(1), jsonNumber(2)
+	for i := 0; i < 60; i++ {
+		if i%2 == 0 {
+			deepA, deepB = jsonObject{"a": deepA}, jsonObject{"a": deepB}
+		} else {
+			deepA, deepB = jsonArray{jsonNumber(0), deepA}, jsonArray{jsonNumber(0), deepB}
+		}
+	}
+	as = append(as, deepA)
+	bs = append(bs, deepB)
+	wideA, wideB := jsonObject{}, jsonObject{}
+	for i := 0; i < 500; i++ {
+		k := "key" + string(rune('a'+i%26)) + string(rune('a'+(i/26)%26))
+		wideA[k] = jsonNumber(i)
+		wideB[k] = jsonNumber(i)
+	}
+	wideB["keyaa"] = jsonString("changed")
+	delete(wideB, "keybb")
+	wideB["zz"] = jsonArray{}
+	as = append(as, wideA)
+	bs = append(bs, wideB)
+	return as, bs
+}
+
+func verifScaleA() []JsonNode { a, _ := verifScalePairs(); return a }
+func verifScaleB() []JsonNode { _, b := verifScalePairs(); return b }
+
+// verifScale: the library-level statements (C01 round trip, C02 text, C09 / C11 renderings,
+// C16 YAML) on one large pair. Returns "" or the name of the statement that fails.
+func verifScale(a, b JsonNode) string {
+	if !verifPatchGives(a, a.Diff(b), b, nil) {
+		return "C01: diff then patch"
+	}
+	// (no colour rendering here: its rune-level comparison of two 70 kB strings is quadratic)
+	d := a.Diff(b)
+	d2, err := ReadDiffString(d.Render())
+	if err != nil || d2.Render() != d.Render() || !verifPatchGives(a, d2, b, nil) {
+		return "C02: text round trip"
+	}
+	if verifPointerExpressible(a) && verifPointerExpressible(b) && !verifRenderPatchFaithful(a, b) {
+		return "C09: RFC 6902 rendering"
+	}
+	if verifNullFree(a) && verifNullFree(b) && !verifRenderMergeFaithful(a, b, []Option{MERGE}) {
+		return "C11: RFC 7386 rendering"
+	}
+	if !verifYamlJson(a) || !verifYamlJson(b) {
+		return "C16: YAML / JSON round trip"
+	}
+	return ""
+}
+
+// verifScaleCLI (C14): verifCLICheck on a large pair (files, stdin, -o, -p).
+func verifScaleCLI(a, b JsonNode, fi int) string { return verifCLICheck(a, b, fi) }
